@@ -78,6 +78,15 @@ CHECKS.update({
         note="The end-of-build summary (analyze_pending) is outside: window functions and a forest walk over nine temp tables are outside the encoded SQL subset.",
     ),
 })
+CHECKS.update({
+    "C10": dict(
+        engine="E-SQL",
+        ref="DESIGN.md section 5 / C10",
+        technique="bounded SMT over a symbolic relational database: the live SQL (SELECT_NEXT_STEP, FILL/APPLY_SAFE_UPDATE, UPDATE/PROPAGATE_CHECK_AFTER, RECOMPUTE_READY, the triggers of STEP_SCHEMA) is given a z3 semantics, the real Scheduler/Step/File/Node methods run natively against it with a fork-on-concretise executor; models are replayed on a real SQLite database through the real classes",
+        text="Inductive one-step obligations from ANY database state within the capacity bound (K node slots, D edges) that satisfies the schema constraints and the graph invariants: (1) the dispatch query returns only eligible steps and returns one whenever one exists, given coherent caches; (2) each recomputation makes the cached attribute equal to its definition (safe, ready, least fixed point of implied need) and clears the flags; (3) each of 17 mutations performed by the real methods keeps 'whatever is not flagged agrees with its definition' -- the no-lost-wake-up argument for every order of mutations. unsat = holds for all states in the bound; every model is replayed on the real code.",
+        note="Trusted: the E-SQL semantics (validated differentially against real SQLite on random valid states on every run), z3. Bounds: K=4-5 nodes, D=3 edges quick; K=5-6, D=4 thorough. Priority order (ORDER BY) and the asyncio wake-up of the job loop are outside. Two genuine defects found and repaired (see known_findings.json).",
+    ),
+})
 NOT_APPLICABLE = {
     "C15": "Atomicity/isolation are delivered by SQLite's C transaction machinery (BEGIN IMMEDIATE/commit/rollback) and asyncio task scheduling; the remaining Python has no symbolic input for a solver to range over, and a model of rollback would restate the assumption (DESIGN.md section 6).",
 }
